@@ -1,5 +1,6 @@
 from fw import PropertyCheck
 import fam_swap
+import fam_world
 
 
 class Check(PropertyCheck):
@@ -8,11 +9,17 @@ class Check(PropertyCheck):
             "side of the 10^-18 rounding window, of the 2^256 product overflows and of x/a/y in {0,1,..} "
             "(directed); log-uniform random triples with structured commission rates.  A case is non-trivial "
             "when the implementation returned Ok (a priced swap); cases are de-duplicated by input before "
-            "running, so the count is of distinct cases.")
-    modelled = ["bigint::U256 limb arithmetic is modelled as exact checked arithmetic on N (third-party code)"]
+            "running, so the count is of distinct cases.  System level: histories on the real contracts with pairs of every kind "
+            "created at commission rates {0, default, 1%, 1/2, 1, 10^-18, 3%}, direct swaps by both entry points before and "
+            "after the factory owner migrates each pair and rolls the pair code id; the band / commission / sum clauses are "
+            "evaluated on the amounts the pair reported against the reserves and the rate it described just before.")
+    search_rounds = 1
+    search_tier = "quick"
+    modelled = ["cw-multi-test 0.16.1 transaction atomicity and message order; cw20-base 1.0.0; the bank (system-level family)", "bigint::U256 limb arithmetic is modelled as exact checked arithmetic on N (third-party code)"]
     assumptions = ["operands are 128-bit (Uint128 at the API) and the commission rate is at most 1.0 "
                    "(enforced by the factory at pair creation)"]
 
     def families(self, rng, tier):
         return [("formulas.compute_swap", fam_swap.swap_cases(rng, tier)),
-                ("formulas.compute_swap.monotone", fam_swap.mono_cases(rng, tier))]
+                ("formulas.compute_swap.monotone", fam_swap.mono_cases(rng, tier)),
+                ("world.commission", fam_world.commission_histories(rng, tier))]
